@@ -10,6 +10,11 @@ def run(ses):
     for unit in ("leader", "volume", "image10s", "image11s"):
         records.check_unit(ses, unit, ["sorts"])
     wrapper_obligations(ses)
+    # declared dtype / shape == dtype / shape of the loaded selection (all row selections incl. empty, both sample types)
+    from pyvc.harness import run_cases
+
+    run_cases(ses, "props.arraychain", "case_getitem", [("IU2", "slice_sym", "slice_none"), ("C*8", "slice_sym", "slice_none"),
+                                                       ("C*8", "int", "slice_sym")])
     ses.trust(*TRUST[:4], "xarray computes nbytes / repr from `.dtype` / `.shape` of a BackendArray (T6)")
 
 
